@@ -16,6 +16,7 @@ import (
 	"verif/props/core"
 	"verif/props/proto"
 	"verif/shim/vtime"
+	"verif/simnet"
 	"verif/vsched"
 )
 
@@ -434,6 +435,30 @@ func pItems(tier string) []proto.Item {
 			s.Hops[t] = proto.HopSpec{DelayUs: 45000}
 		}
 		items = append(items, proto.Item{Scn: s, Class: fmt.Sprintf("%s/destination-slower-than-the-send-delay", v), Note: map[string]string{"want_len": "3"}})
+	}
+	// serial engine: an unrelated packet 50 ms into the destination's window shifts the receive polls off the window's
+	// grid, so that one poll straddles the window's end; the destination's answer arrives inside that poll, just after the
+	// window has closed: the engine has been handed it - the list ends there and no further TTL is probed
+	for _, v := range proto.Variants {
+		vi := proto.Info(v)
+		if vi.Parallel {
+			continue
+		}
+		for _, late := range []int{310000, 340000} {
+			s := proto.Scn{Variant: v, First: 1, Last: 5, Dest: 3, IPIDBase: 300, EchoBase: 31, TimeoutMs: 300, DelayMs: 10}
+			s.Hops = map[int]proto.HopSpec{3: {DelayUs: late}}
+			s.Inject = []proto.Inject{{OnTTL: 3, AnswerTTL: 3, Form: vi.TEForm, From: proto.Evil(vi.V6).String(), DelayUs: 50000, Tag: "phase-shift", Rewrite: []simnet.Perturb{{Field: "q.dst", Op: "+1"}}}}
+			items = append(items, proto.Item{Scn: s, Class: fmt.Sprintf("%s/destination-answer-in-the-poll-straddling-its-window/%dms", v, late/1000), Note: map[string]string{"want_len": "3"}})
+		}
+	}
+	// ICMP: a stray echo reply from the target with the run's identifier and a sequence number of 256 + an already probed
+	// TTL (another pinger on the host shares the identifier): it is nobody's answer - the list runs on to the destination
+	for _, v := range []string{"icmp4", "icmp6"} {
+		for _, t := range []int{1, 2} {
+			s := proto.Scn{Variant: v, First: 1, Last: 5, Dest: 3, IPIDBase: 300, EchoBase: 31, TimeoutMs: 300, DelayMs: 10}
+			s.Inject = []proto.Inject{{OnTTL: t, AnswerTTL: t, Form: "echo", From: s.Target().String(), DelayUs: 1000, Tag: "stray-echo-sequence-plus-256", Rewrite: []simnet.Perturb{{Field: "echo.seq", Op: "+256"}}}}
+			items = append(items, proto.Item{Scn: s, Class: fmt.Sprintf("%s/stray-echo-reply-sequence-ttl-plus-256", v), Note: map[string]string{"want_len": "3"}})
+		}
 	}
 	// TCP SYN: the probe's sequence number is 2^32-1, so the destination acknowledges 0 (default mode: one number for the
 	// whole run; Paris mode: every probe draws it): the list ends at the destination all the same
